@@ -78,12 +78,13 @@ type Sim struct {
 }
 
 var (
-	reServer = regexp.MustCompile(`^\s+server\s+(\S+)\s+(\S+):(\d+)(.*)$`)
-	reWeight = regexp.MustCompile(`\sweight\s+(\d+)`)
-	reCookie = regexp.MustCompile(`\scookie\s+(\S+)`)
-	reID     = regexp.MustCompile(`\sid\s+(\d+)`)
-	reCrtLst = regexp.MustCompile(`\scrt-list\s+(\S+)`)
-	reCrt    = regexp.MustCompile(`\scrt\s+(\S+)`)
+	reSrvTmpl = regexp.MustCompile(`^\s+server-template\s+(\S+)\s+(\d+)\s+(\S+)`)
+	reServer  = regexp.MustCompile(`^\s+server\s+(\S+)\s+(\S+):(\d+)(.*)$`)
+	reWeight  = regexp.MustCompile(`\sweight\s+(\d+)`)
+	reCookie  = regexp.MustCompile(`\scookie\s+(\S+)`)
+	reID      = regexp.MustCompile(`\sid\s+(\d+)`)
+	reCrtLst  = regexp.MustCompile(`\scrt-list\s+(\S+)`)
+	reCrt     = regexp.MustCompile(`\scrt\s+(\S+)`)
 )
 
 func digestFile(path string) string {
@@ -157,6 +158,13 @@ func LoadRuntime(cfgDir string) (*Runtime, error) {
 			if strings.HasPrefix(t, "cookie ") {
 				cur.HasCookie = true
 				cur.CookiePreserve = strings.Contains(t+" ", " preserve ")
+			}
+			if m := reSrvTmpl.FindStringSubmatch(line); m != nil {
+				// server-template <prefix> <n> <fqdn>[:port] ...: n slots filled by DNS discovery
+				n, _ := strconv.Atoi(m[2])
+				for k := 1; k <= n; k++ {
+					cur.Servers = append(cur.Servers, &Server{Name: fmt.Sprintf("%s%d", m[1], k), Addr: m[3], Weight: 1, State: "ready"})
+				}
 			}
 			if m := reServer.FindStringSubmatch(line); m != nil {
 				port, _ := strconv.Atoi(m[3])
